@@ -1,6 +1,8 @@
 """C08 - the plane-type state machine follows the documented table."""
+import copy
 import itertools
 import os
+import pickle
 import warnings
 
 import numpy as np
@@ -46,6 +48,11 @@ CLASS_OPS = [c for p in ptype_doc.PTYPES for c in CLASSES[p] if c not in KNOWN_B
 ALPHABET = [f"ptype:{p}" for p in ptype_doc.PTYPES] + [f"class:{c}" for c in CLASS_OPS] + ["prop:dft", "prop:fft"]
 
 
+def name_of(op):
+    kind, name = op.split(":")
+    return name if kind == "ptype" else None
+
+
 def make_plane(op):
     kind, name = op.split(":")
     if kind == "ptype":
@@ -74,6 +81,25 @@ def make_plane(op):
     raise KeyError(name)
 
 
+# how the plane object handed to the multiplication came about: a plane is the same plane after copy(),
+# copy.deepcopy() or a pickle round trip (multiprocessing workers), and with its type given as a string or an object
+VARIANTS = ["constructed", "copy", "deepcopy", "pickle"]
+
+
+def derive(plane, variant):
+    if variant == "copy":
+        return plane.copy()
+    if variant == "deepcopy":
+        return copy.deepcopy(plane)
+    if variant == "pickle":
+        return pickle.loads(pickle.dumps(plane))
+    return plane
+
+
+def variant_for(ops, i):
+    return VARIANTS[(i + len(ops) + sum(ALPHABET.index(o) for o in ops[:i + 1])) % len(VARIANTS)]
+
+
 def start_wavefront(t):
     w = lentil.Wavefront(WL, pixelscale=DX, focal_length=Z)
     if t == "none":
@@ -100,7 +126,7 @@ def snap_p(p):
             np.asarray(p.mask).tobytes(), len(p.tilt), p.pixelscale)
 
 
-def run_program(start, ops, ctx=None):
+def run_program(start, ops, ctx=None, variants=None):
     with lentil_call("C08.start", f"start wavefront of type {start}"):
         w = start_wavefront(start)
     t = start
@@ -150,8 +176,15 @@ def run_program(start, ops, ctx=None):
             w, t, has_tilt = new, expect, False
             n_prop += 1
             continue
-        with lentil_call("C08.construct", f"constructing {op}"):
+        variant = variants[i] if variants is not None else variant_for(ops, i)
+        where = f"step {i} ({op}, plane {variant}) on a {t} wavefront [program {start}: {' '.join(ops[:i + 1])}]"
+        with lentil_call("C08.construct", f"constructing {op} ({variant})"):
             plane, p, adds_tilt = make_plane(op)
+            if name_of(op) in ("pupil", "image", "none", "tilt", "transform") and (i + len(ops)) % 2:
+                # plane type given as the lentil.<type> object instead of its name
+                plane = lentil.Plane(amplitude=np.ones((N, N)) if name_of(op) in ("pupil", "image") else 1,
+                                     ptype=getattr(lentil, name_of(op)))
+            plane = derive(plane, variant)
         if str(plane.ptype) != p:
             raise Violation("C08.class.ptype", f"{op}: instance has ptype '{plane.ptype}', documented '{p}'")
         before_p = snap_p(plane)
@@ -210,6 +243,26 @@ def programs_enum(case, ctx):
      "drawn programs of length 5..30", examples=(300, 1500))
 def programs_long(case, ctx):
     run_program(case["start"], case["ops"], ctx)
+
+
+def _enum_variants(tier):
+    for op in ALPHABET:
+        if op.startswith("prop:"):
+            continue
+        for t in ptype_doc.WTYPES:
+            for v in VARIANTS:
+                for second in (None, "class:Tilt", "prop:dft"):
+                    yield {"start": t, "op": op, "variant": v, "then": second}
+
+
+@enum("C08", "plane_variants", _enum_variants,
+      "every plane of the alphabet as constructed / after copy() / copy.deepcopy() / a pickle round trip, applied to "
+      "every wavefront type (optionally followed by a Tilt plane or a propagation)", exhaustive_tiers=("quick", "thorough"))
+def plane_variants(case, ctx):
+    ops = [case["op"]] + ([case["then"]] if case["then"] else [])
+    ctx.tag("variant:" + case["variant"])
+    run_program(case["start"], ops, ctx, variants=[case["variant"]] * len(ops))
+    ctx.nontrivial_if(case["variant"] != "constructed")
 
 
 def _enum_classes(tier):
